@@ -3,7 +3,7 @@ import numpy as np
 
 from xv.typegen import kinds_in, shape_sig, is_static, plain, build, has_refs
 import xobjects as xo
-from xv.typegen import merge_caps
+from xv.typegen import merge_caps, decap
 from xv.model import get_model, compare, exc_kind, nodes, get_path, set_path, set_model, ar_sig, Env
 from xv.props.common import new_case, build_root, flush_contracts, ctxs
 
@@ -34,7 +34,7 @@ def run_case(w, rng):
         if mech not in seen:
             seen.add(mech)
             info = dict(c.info)
-            info["history"] = hist[-12:]
+            info["history"] = hist[-40:]
             w.violation(mech, msg, info)
 
     hist = []
@@ -157,7 +157,10 @@ def run_case(w, rng):
                 w.count("via:" + via)
                 hist.append([op, l, via, how, repr(arg)[:80]])
                 mv = set_model(t, mv, p, newv)
-                caps = set_model(t, caps, p, newv if op == "ref" else merge_caps(nt, capv, newv))
+                # reference targets created by COPYING an xobject keep the room of their text only (a copy need not
+                # keep the spare capacity of strings created from a capacity)
+                capnew = decap(nt, newv) if how in ("xobject", "xobject-of-other-class") else newv
+                caps = set_model(t, caps, p, capnew if op == "ref" else merge_caps(nt, capv, capnew))
                 ops.append(op[0] + k[0])
                 if op == "ref" or (op == "whole" and has_refs(nt)):
                     # references at or below p were re-bound: views of the old referents are no longer part of the object
